@@ -31,6 +31,9 @@ var checks = map[string]*check{
 			{Name: "routing-1id", Kind: "explore", Scen: "mux_route", Inst: inst("single", "single"), Depths: depths([]int{3}, []int{3, 4, 5}), Budget: budget(2*time.Minute, 10*time.Minute)},
 			{Name: "routing-2id", Kind: "explore", Scen: "mux_route", Inst: inst("pairs", "pairs-all"), Depths: depths([]int{2}, []int{2, 3}), Budget: budget(3*time.Minute, 20*time.Minute)},
 			{Name: "concurrent-dispense", Kind: "explore", Scen: "conc_ops", Inst: inst("c06", "c06"), Depths: depths([]int{2}, []int{2, 3}), Budget: budget(2*time.Minute, 10*time.Minute)},
+			// one end is a hand-written peer (another implementation of the wire protocol) that writes ids and acknowledgements
+			// in two pieces, 10 ms apart
+			{Name: "hand-written-peer", Kind: "explore", Scen: "mux_route", Inst: inst("rawpeer", "rawpeer"), Depths: depths([]int{1}, []int{1, 2}), Budget: budget(2*time.Minute, 10*time.Minute)},
 			// two ids at once with fine-grained preemption (every function entry of go-plugin is a scheduling point)
 			{Name: "fine-grained", Kind: "explore", Scen: "mux_route", Inst: inst("fine", "fine"), Depths: depths([]int{2}, []int{2, 3}), Budget: budget(3*time.Minute, 20*time.Minute)},
 			// explicit ids: the same number outstanding in both directions at once, ids 0 / 2^31 / 2^32-1
